@@ -152,6 +152,11 @@ STD_RANGES = {
 }
 
 
+_CMP_CALL = re.compile(r"^(?:core::cmp::Partial(?:Ord|Eq)::|<util::rangeint::ri\d+<[^>]*> as core::cmp::PartialEq<[^>]*>>::|"
+                       r"<util::rangeint::ri\d+<[^>]*> as core::cmp::PartialEq<util::rangeint::ri\d+<[^>]*>>>::|"
+                       r"core::cmp::impls::<impl core::cmp::Partial(?:Ord|Eq) for \w+>::)(lt|le|gt|ge|eq|ne)$")
+
+
 class AV:
     """Abstract value."""
     __slots__ = ("iv", "sid", "rel", "cmp", "ref", "ovf", "tr", "mod", "pay")
@@ -628,8 +633,12 @@ class Analyzer:
                 return AV(sid=base.sid, ref=base.ref)
             tgt = self.read_place(st, p, tag=where)
             if rv.get("mut"):
-                # the referent may be modified through the new reference
-                self.kill_prefix(st, mir.place_key(p))
+                # the referent may be modified through the new reference; when
+                # the reference is only an argument of this block's call the
+                # call transfer (which forgets referents of &mut arguments, or
+                # models the callee) takes care of it
+                if not self._only_call_arg(lhs, where):
+                    self.kill_prefix(st, mir.place_key(p))
                 return AV(ref=mir.place_key(p))
             return AV(sid=tgt.sid, ref=mir.place_key(p))
         if k == "agg":
@@ -641,6 +650,37 @@ class Analyzer:
         if k == "repeat":
             return TOP
         return TOP
+
+    def _only_call_arg(self, lhs, where):
+        if "p" in lhs or not isinstance(where, tuple):
+            return False
+        l = lhs["l"]
+        memo = self.__dict__.setdefault("_oca", {})
+        if l in memo:
+            return memo[l]
+        uses = 0
+        as_arg = 0
+        for bi, b in enumerate(self.fn.blocks):
+            for s in b["st"]:
+                if s["s"] == "=":
+                    for o in mir.rvalue_operands(s["rv"]):
+                        if o.get("o") in ("cp", "mv") and o.get("l") == l:
+                            uses += 1
+                    if s["lhs"]["l"] == l and "p" in s["lhs"]:
+                        uses += 1
+            t = b["term"]
+            if t["t"] == "call":
+                for o in t["args"]:
+                    if o.get("o") in ("cp", "mv") and o.get("l") == l:
+                        uses += 1
+                        if "p" not in o:
+                            as_arg += 1
+            elif t["t"] in ("switch", "assert", "drop"):
+                for o in [t.get("op"), t.get("cond"), t.get("place")]:
+                    if o and o.get("l") == l:
+                        uses += 1
+        memo[l] = (uses == 1 and as_arg == 1)
+        return memo[l]
 
     def eval_bin(self, st, rv, where):
         op = rv["op"]
@@ -778,6 +818,12 @@ class Analyzer:
         path = t.get("path", "")
         args = t["args"]
         avs = [self.read_op(st, a, tag=(where, i)) for i, a in enumerate(args)]
+        dest_ty = t.get("dest_ty")
+        h = self.hooks.get("call")
+        if h is not None:
+            r = h(self, st, t, avs, where)
+            if r is not None:
+                return r
         # mutable references handed to the callee: forget their referents
         for a, av, ty in zip(args, avs, t.get("arg_tys", [])):
             if ty.startswith("&mut") or ty.startswith("&'") and " mut " in ty.split("::")[0]:
@@ -786,12 +832,6 @@ class Analyzer:
                 elif a.get("o") in ("cp", "mv"):
                     # `&mut *x` reborrows of a reference parameter
                     self.kill_prefix(st, (a["l"], "*"))
-        dest_ty = t.get("dest_ty")
-        h = self.hooks.get("call")
-        if h is not None:
-            r = h(self, st, t, avs, where)
-            if r is not None:
-                return r
         r = self.std_call(st, t, path, avs, dest_ty, where)
         if r is not None:
             return r
@@ -924,6 +964,37 @@ class Analyzer:
                     st.lens[sid] = (max(0, hi.iv[0] - lo.iv[1]), max(0, min(hi.iv[1], ln[1]) - lo.iv[0]))
                 return AV(sid=sid)
             return self.top_of_type(dest_ty, tag=where, st=st)
+        mcmp = _CMP_CALL.match(path)
+        if mcmp and len(avs) == 2 and dest_ty == "bool":
+            # comparisons through references (ranged integers, Ord on primitives)
+            op = {"lt": "Lt", "le": "Le", "gt": "Gt", "ge": "Ge", "eq": "Eq", "ne": "Ne"}[mcmp.group(1)]
+            keys = []
+            vals = []
+            for a, op_ in zip(avs, t["args"]):
+                if a.ref is not None:
+                    keys.append(("place", a.ref, st.ver.get(a.ref[0]), None, None))
+                    vals.append(self.read_place(st, _key_to_place(a.ref)))
+                elif a.iv is not None and a.iv[0] == a.iv[1]:
+                    keys.append(("const", a.iv[0]))
+                    vals.append(a)
+                else:
+                    keys.append(self._cmpkey(st, op_))
+                    vals.append(a)
+            res = (0, 1)
+            ivs = []
+            for v, ty_ in zip(vals, t.get("arg_tys", [])):
+                iv = v.iv
+                if iv is None:
+                    b_ = ranged_bounds(strip_refs(ty_))
+                    iv = (b_[1], b_[2]) if b_ else PRIM.get(strip_refs(ty_))
+                ivs.append(iv)
+            if ivs[0] is not None and ivs[1] is not None:
+                d = _decide(op, ivs[0], ivs[1])
+                if d is True: res = (1, 1)
+                elif d is False: res = (0, 0)
+            if all(k is not None for k in keys):
+                return AV(iv=res, cmp=("cmp", op, keys[0], keys[1]))
+            return AV(iv=res)
         if path == "core::ops::RangeInclusive::<Idx>::new" and len(avs) == 2:
             if avs[0].iv is not None and avs[1].iv is not None:
                 return AV(cmp=("rangeincl", avs[0].iv, avs[1].iv))
